@@ -1010,7 +1010,7 @@ func main() {
 	parquetSlice(cf, rng.Fork(), dir, f.Cases(40, 400))
 
 	// csv with pruned field lists, tied to the record-level model
-	for i, n := 0, f.Cases(40, 400); i < n; i++ {
+	for i, n := 0, f.Cases(30, 400); i < n; i++ {
 		csvProjCase(cf, rng.Fork(), dir, i)
 	}
 
